@@ -168,5 +168,5 @@ def strat_ds(draw, tier):
 
 
 PARTS = [
-    Part("ds", check_ds, lambda tier: strat_ds(tier), quick=2500, thorough=60000, min_nontrivial_frac=0.4),
+    Part("ds", check_ds, lambda tier: strat_ds(tier), quick=2500, thorough=60000, min_nontrivial_frac=0.3),
 ]
